@@ -1366,7 +1366,9 @@ func (w *W) opSetChild() string {
 		existing = w.pick(cands, "setchild-root")
 	case 2:
 		// a config that was attached elsewhere and has been removed / replaced there
-		if (w.F.MoveBias || w.F.Reattach) && !w.R.Avoid["O11"] && len(w.detached) > 0 {
+		// (known finding O11 concerns a config attached to two parents at once - not generated: a
+		// config that was taken out of its tree is a root again, since the O76 repair)
+		if (w.F.MoveBias || w.F.Reattach) && len(w.detached) > 0 {
 			existing = w.detached[w.R.T.Choose(len(w.detached), "setchild-detached")]
 			w.detached = nil
 		}
